@@ -244,15 +244,68 @@ func c06verify(c *Ctx, p *load.Program, pkgPath, prefix, tag string) {
 	R.Sample(map[string]any{"VerifySignatures_" + tag + "_iteration_facts": facts.Atoms(it)})
 	// return true only via the loop exit edge, and it is the only accepting return
 	nTrue := 0
+	// exits: a return of a boolean constant, or — when the checks live in an error-returning helper
+	// and the function ends in `return err == nil` — one exit per way the error gets its value
+	// (nil: accepting; a value that can never be nil: rejecting), judged with the facts of that way
+	type vexit struct {
+		instr ssa.Instruction
+		blk   *ssa.BasicBlock
+		isC   bool
+		val   string
+		fs    []facts.Fact
+	}
+	var exits []vexit
 	eachInstr(fn, func(i ssa.Instruction) {
 		r, ok := i.(*ssa.Return)
 		if !ok || len(r.Results) != 1 {
 			return
 		}
-		cst, isC := r.Results[0].(*ssa.Const)
-		if isC && cst.Value != nil && cst.Value.ExactString() == "false" {
+		if cst, isC := r.Results[0].(*ssa.Const); isC && cst.Value != nil {
+			exits = append(exits, vexit{r, r.Block(), true, cst.Value.ExactString(), acceptFacts(r)})
+			return
+		}
+		if bo, isBin := r.Results[0].(*ssa.BinOp); isBin && bo.Op == token.EQL {
+			var ph *ssa.Phi
+			if isNilConst(bo.Y) {
+				ph, _ = bo.X.(*ssa.Phi)
+			} else if isNilConst(bo.X) {
+				ph, _ = bo.Y.(*ssa.Phi)
+			}
+			if ph != nil && isErrorType(ph.Type()) {
+				split := true
+				var vs []vexit
+				for k, e := range ph.Edges {
+					pred := ph.Block().Preds[k]
+					ei := 0
+					for q, sc := range pred.Succs {
+						if sc == ph.Block() {
+							ei = q
+						}
+					}
+					efs := facts.AtEdge(pred, ei, nil)
+					switch {
+					case isNilConst(e):
+						vs = append(vs, vexit{r, pred, true, "true", efs})
+					case facts.IntrinsicNonNil(e):
+						vs = append(vs, vexit{r, pred, true, "false", efs})
+					default:
+						split = false
+					}
+				}
+				if split && len(vs) > 0 {
+					exits = append(exits, vs...)
+					return
+				}
+			}
+		}
+		exits = append(exits, vexit{r, r.Block(), false, "", acceptFacts(r)})
+	})
+	for _, ex := range exits {
+		r, isC := ex.instr, ex.isC
+		rblk := ex.blk
+		if isC && ex.val == "false" {
 			// classify
-			fs := acceptFacts(r)
+			fs := ex.fs
 			classOf := func(f facts.Fact) string {
 				x, op, y, ok := cmpOf(f)
 				if !ok {
@@ -312,12 +365,12 @@ func c06verify(c *Ctx, p *load.Program, pkgPath, prefix, tag string) {
 						}
 					}
 				}
-				if len(es) > 0 && facts.PassesAny(r.Block(), nil, es...) {
+				if len(es) > 0 && facts.PassesAny(rblk, nil, es...) {
 					class = "one of the recognised causes on every path"
 				}
 			}
 			R.Check(prefix+".reject-set", R.Key(prefix+".reject-set", "VerifySignatures", "return-false:"+tag), c.rel(p.Pos(instrPos(r))), "rejection is one of the six causes implied by the property (class: "+class+")", class != "", "undecided: unclassified rejection", facts.Atoms(fs)...)
-			return
+			continue
 		}
 		nTrue++
 		// exit edge of the header
@@ -328,7 +381,7 @@ func c06verify(c *Ctx, p *load.Program, pkgPath, prefix, tag string) {
 				exit = append(exit, facts.Edge{B: outer.Header.Index, K: k})
 			}
 		}
-		okExit := len(exit) == 1 && facts.PassesAny(r.Block(), nil, exit...) && isC && cst.Value != nil && cst.Value.ExactString() == "true"
+		okExit := len(exit) == 1 && facts.PassesAny(rblk, nil, exit...) && isC && ex.val == "true"
 		// and no other edge leaves the loop towards it (break): every non-header exit of the body must not reach r
 		for b := range body {
 			if b == outer.Header {
@@ -342,14 +395,14 @@ func c06verify(c *Ctx, p *load.Program, pkgPath, prefix, tag string) {
 						cuts[e] = true
 					}
 					_ = k
-					if facts.Reachable(r.Block(), cuts) {
+					if facts.Reachable(rblk, cuts) {
 						okExit = false
 					}
 				}
 			}
 		}
 		R.Check(prefix+".accept-guards", R.Key(prefix+".accept-guards", "VerifySignatures", "return-true:"+tag), c.rel(p.Pos(instrPos(r))), "acceptance is reachable only through the loop's normal exit (all signatures examined)", okExit, "an accepting return bypasses the loop exit")
-	})
+	}
 	R.Check(prefix+".accept-guards", key("accept-guards")+"/single-accept", pos, "exactly one accepting return", nTrue == 1, fmt.Sprintf("%d accepting returns", nTrue))
 	// distinct signers: needed for guardian lists that repeat an address
 	c06distinct(c, p, fn, outer, prefix, tag, isRecAddr)
